@@ -194,6 +194,58 @@ def replay_fit(cfg, inputs, label):
     return False, "bootstrap contract holds"
 
 
+def run_fit3(cfg):
+    """3 training rows (concrete length), weights with an exact zero: a drawn row keeps its features,
+    target and weight; every row is eligible; the sample size is round(alpha*n)"""
+    ir = loader.load("mlmodel.interval_regressor")
+    m, n = cfg["m"], 3
+
+    def scenario(C):
+        if C.symbolic:
+            X, y = sx.cur().reals("X", n, 1), sx.cur().reals("y", n)
+            wv = [sx.cur().real(f"w{i}") for i in range(n)]
+            for v in wv:
+                C.assume(v > 0)
+        else:
+            X = numpy.array([[float(C.inputs.get(f"X_{i}_0", i + 0.5))] for i in range(n)], dtype=object)
+            y = numpy.array([float(C.inputs.get(f"y_{i}", 10.0 * i + 1)) for i in range(n)], dtype=object)
+            wv = [float(C.inputs.get(f"w{i}", i + 1.0)) for i in range(n)]
+        if cfg["weights"] == "zero-first":
+            wv[0] = 0.0
+        elif cfg["weights"] == "zero-middle":
+            wv[1] = 0.0
+        w = numpy.array(wv, dtype=object)
+        draws = []
+
+        class NP:
+            def __getattr__(self, k):
+                return getattr(numpy, k)
+
+            class random:  # noqa: N801
+                @staticmethod
+                def randint(low, high=None, size=None, dtype=int):
+                    k = len(draws)
+                    C.true(int(low) == 0 and int(high) == n, "randint/every-row-eligible(low=0,high=n)", detail=(low, high))
+                    idx = [int(low) + C.choice(f"draw{k}_{t}", max(1, int(high) - int(low))) for t in range(int(size))]
+                    draws.append(idx)
+                    return numpy.array(idx)
+
+        RecEst.log = []
+        est = ir.IntervalRegressor(estimator=RecEst(), n_estimators=m, alpha=1.0)
+        with harness.patched(ir, numpy=NP(), Parallel=SeqParallel, delayed=seq_delayed):
+            est.fit(X, y, sample_weight=w)
+        C.true(len(draws) == m and all(len(d) == n for d in draws), "size==round(alpha*n)", detail=[len(d) for d in draws])
+        for k, (_, Xr, yr, sr) in enumerate(RecEst.log):
+            ok = len(Xr) == len(yr) == len(sr) == len(draws[k]) if k < len(draws) else False
+            C.true(ok, "one-resample-per-estimator")
+            if not ok:
+                continue
+            for t, i in enumerate(draws[k]):
+                C.true(Xr[t, 0] is X[i, 0] and yr[t] is y[i] and (sr[t] is w[i] or (not sx.is_sym(w[i]) and sr[t] == w[i])), "features-target-weight-of-a-drawn-row-kept-together", detail=(k, t, i))
+
+    return harness.run_scenario(scenario, f"C17{cfg}", cfg=cfg, sig=lambda l: l, on_exception_label="fit-raises")
+
+
 class TruncArr(sx.SArr):
     """what an integer-dtype NumPy buffer does to the values stored in it: truncation"""
 
@@ -239,7 +291,8 @@ def run_agg(cfg):
     m, rows, qdtype = cfg["m"], cfg["rows"], cfg["qdtype"]
 
     def h(e):
-        est = ir.IntervalRegressor(estimator=RecEst(), n_estimators=m)
+        # the hyper-parameter may have been changed after the fit (set_params): the fitted members decide
+        est = ir.IntervalRegressor(estimator=RecEst(), n_estimators=m + cfg.get("extra", 0))
         est.estimators_ = [SymReg(k) for k in range(m)]
         Xq = e.reals("xq", rows, 1) if qdtype == "float64" else numpy.arange(rows, dtype=qdtype).reshape(rows, 1)
         with harness.patched(ir, numpy=_AggNP()):
@@ -284,7 +337,7 @@ def replay_agg(cfg, inputs, label):
     P = numpy.array([[float(inputs.get(f"p{k}_{r}", k + 0.5 * r + 0.25)) for r in range(rows)] for k in range(m)])
     if numpy.allclose(P, 0):
         P = numpy.array([[k + 0.5 * r + 0.25 for r in range(rows)] for k in range(m)])
-    est = ir.IntervalRegressor(estimator=RecEst(), n_estimators=m)
+    est = ir.IntervalRegressor(estimator=RecEst(), n_estimators=m + cfg.get("extra", 0))
     est.estimators_ = [Fixed(P[k]) for k in range(m)]
     Xq = numpy.arange(rows, dtype=cfg["qdtype"]).reshape(rows, 1)
     try:
@@ -299,10 +352,14 @@ def replay_agg(cfg, inputs, label):
 
 
 def run_config(cfg):
+    if cfg["kind"] == "fit3":
+        return run_fit3(cfg)
     return run_fit(cfg) if cfg["kind"] == "fit" else run_agg(cfg)
 
 
 def replay(cfg, inputs, label):
+    if cfg["kind"] == "fit3":
+        return True, "re-run ./check C17: the fit3 scenario replays itself in concrete mode"
     return replay_fit(cfg, inputs, label) if cfg["kind"] == "fit" else replay_agg(cfg, inputs, label)
 
 
@@ -316,6 +373,10 @@ def configs(tier):
     for m, rows in shapes:
         for qdtype in ("float64", "int64"):
             out.append(dict(kind="agg", m=m, rows=rows, qdtype=qdtype))
+    out.append(dict(kind="agg", m=2, rows=2, qdtype="float64", extra=3))
+    out.append(dict(kind="agg", m=3, rows=1, qdtype="float64", extra=-1))
+    for weights in ("zero-first", "zero-middle", "positive"):
+        out.append(dict(kind="fit3", m=2, weights=weights))
     return out
 
 
